@@ -4,7 +4,7 @@ From BB Require Import Model.Sim Proofs.BitsFacts.
 From Coq Require Import ZArith List Reals Lia.
 From Flocq Require Import Core BinarySingleNaN.
 From Flocq Require Import IEEE754.PrimFloat.
-From BB Require Import Proofs.FloatFacts Proofs.KernelFacts Proofs.GenTie Gen.GSim.
+From BB Require Import Proofs.FloatFacts Proofs.KernelFacts Proofs.GenTieSim Gen.GSim.
 Import ListNotations.
 Open Scope Z_scope.
 #[local] Existing Instance Hprec.
